@@ -118,6 +118,9 @@ def undo_moves(modules, log=None):
     for fq in _PINNED:
         mod, _, qual = fq.partition(':')
         ref_top.setdefault(mod, set()).add(qual.split('.')[0])
+    for cfq in _load_pinned_attrs()['classes']:          # classes without methods of their own (configuration holders)
+        mod, _, cname = cfq.partition(':')
+        ref_top.setdefault(mod, set()).add(cname)
 
     def absolute(m, level, module):
         if level == 0:
@@ -218,6 +221,137 @@ def undo_moves(modules, log=None):
             if log is not None:
                 log.append(f'{mB}:{name} taken for {modA}:{name} of the reference layout (moved between modules)')
     return any_move
+
+
+def undo_method_aliases(modules, log=None):
+    """`class C: m = staticmethod(f)` (or classmethod / a plain alias) where `m` is a method of the reference layout and `f` a new module-level function of the
+    same module: the function's definition is read as the method again (the alias is replaced by the def, under the method's name and with the decorator)."""
+    _load_pinned()
+    done = False
+    for mname, m in modules.items():
+        funcs = {st.name: st for st in m.tree.body if isinstance(st, ast.FunctionDef)}
+        for c in [st for st in m.tree.body if isinstance(st, ast.ClassDef)]:
+            have = {st.name for st in c.body if isinstance(st, (ast.FunctionDef, ast.AsyncFunctionDef))}
+            for i, st in enumerate(list(c.body)):
+                if not (isinstance(st, ast.Assign) and len(st.targets) == 1 and isinstance(st.targets[0], ast.Name)):
+                    continue
+                meth = st.targets[0].id
+                if f'{mname}:{c.name}.{meth}' not in _PINNED or meth in have:
+                    continue
+                v, deco = st.value, None
+                if isinstance(v, ast.Call) and isinstance(v.func, ast.Name) and v.func.id in ('staticmethod', 'classmethod') and len(v.args) == 1 and not v.keywords:
+                    deco, v = v.func.id, v.args[0]
+                if not (isinstance(v, ast.Name) and v.id in funcs and f'{mname}:{v.id}' not in _PINNED):
+                    continue
+                fdef = copy.deepcopy(funcs[v.id])
+                fdef.name = meth
+                fdef.decorator_list = ([ast.copy_location(ast.Name(id=deco, ctx=ast.Load()), st)] if deco else []) + fdef.decorator_list
+                c.body[c.body.index(st)] = ast.fix_missing_locations(fdef)
+                # the module-level function goes when nothing else mentions it
+                own_ = {id(x) for x in ast.walk(funcs[v.id])}
+                used = any(isinstance(n, ast.Name) and n.id == v.id and id(n) not in own_ for m2 in modules.values() for n in ast.walk(m2.tree))
+                if not used and funcs[v.id] in m.tree.body:
+                    m.tree.body.remove(funcs[v.id])
+                done = True
+                if log is not None:
+                    log.append(f'{mname}:{c.name}.{meth} = {deco or ""}({v.id}): the function is read as the method of the reference layout')
+    return done
+
+
+_PINNED_ATTRS = None
+
+
+def _load_pinned_attrs():
+    global _PINNED_ATTRS
+    if _PINNED_ATTRS is None:
+        import json
+        p = os.path.join(os.path.dirname(os.path.abspath(__file__)), 'pinned_attrs.json')
+        try:
+            with open(p) as f:
+                _PINNED_ATTRS = json.load(f)
+        except OSError:
+            _PINNED_ATTRS = {'classes': {}, 'modules': {}}
+    return _PINNED_ATTRS
+
+
+def undo_attr_renames(modules, log=None):
+    """A private attribute of a class of the reference layout (a slot, an instance attribute, a class-level name) that is gone while a new one with exactly the
+    same usage signature - the same stores / loads in the same methods, slot or not - appeared in that class was renamed: the old name is restored in the class
+    (every `<x>.new` inside the class body, the `__slots__` entry, string constants equal to the new name in the class's module that name the slot, e.g.
+    `store_name='..'`) and, when the new name stands for one old name only, everywhere else in the package.  The same for module-level variables.  Anything
+    that does not match one-to-one is left alone."""
+    from .attrsig import class_signatures, module_signatures
+    ref = _load_pinned_attrs()
+    done = False
+    new_to_old = {}
+    plans = []
+    for mname, m in modules.items():
+        cur = class_signatures(m.tree)
+        for cname, csig in cur.items():
+            rsig = ref['classes'].get(f'{mname}:{cname}')
+            if not rsig:
+                continue
+            missing = [a for a in rsig if a not in csig]
+            new = [a for a in csig if a not in rsig]
+            if not missing or not new:
+                continue
+            for old in missing:
+                cands = [n for n in new if csig[n] == rsig[old]]
+                # the signature of the other attributes may itself contain renamed method names: equality is required as it is
+                others = [o for o in missing if rsig[o] == rsig[old]]
+                if len(cands) == 1 and len(others) == 1:
+                    plans.append((mname, cname, cands[0], old))
+                    new_to_old.setdefault(cands[0], set()).add(old)
+    for (mname, cname, newn, old) in plans:
+        m = modules[mname]
+        cnode = [c for c in m.tree.body if isinstance(c, ast.ClassDef) and c.name == cname][0]
+        for n in ast.walk(cnode):
+            if isinstance(n, ast.Attribute) and n.attr == newn:
+                n.attr = old
+            elif isinstance(n, ast.Constant) and n.value == newn:
+                n.value = old
+            elif isinstance(n, ast.Name) and n.id == newn and isinstance(getattr(n, 'ctx', None), (ast.Store, ast.Load)) and any(
+                    isinstance(st, (ast.Assign, ast.AnnAssign)) and n in ast.walk(st) for st in cnode.body):
+                n.id = old
+        # decorators / helper calls of this module that name the slot as a string (store_name='_ts_props')
+        for n in ast.walk(m.tree):
+            if isinstance(n, ast.keyword) and isinstance(n.value, ast.Constant) and n.value.value == newn:
+                n.value.value = old
+        unique = len(new_to_old[newn]) == 1
+        if unique:
+            for m2 in modules.values():
+                for n in ast.walk(m2.tree):
+                    if isinstance(n, ast.Attribute) and n.attr == newn:
+                        n.attr = old
+                    elif isinstance(n, ast.keyword) and isinstance(n.value, ast.Constant) and n.value.value == newn:
+                        n.value.value = old
+        done = True
+        if log is not None:
+            log.append(f'{mname}:{cname}.{newn} taken for the renamed attribute `{old}` of the reference layout')
+    # module-level variables
+    for mname, m in modules.items():
+        rsig = ref['modules'].get(mname)
+        if not rsig:
+            continue
+        csig = module_signatures(m.tree)
+        missing = [a for a in rsig if a not in csig]
+        new = [a for a in csig if a not in rsig]
+        for old in missing:
+            cands = [n for n in new if csig[n] == rsig[old] and csig[n]]
+            others = [o for o in missing if rsig[o] == rsig[old]]
+            if len(cands) == 1 and len(others) == 1:
+                newn = cands[0]
+                for n in ast.walk(m.tree):
+                    if isinstance(n, ast.Name) and n.id == newn:
+                        n.id = old
+                for m2 in modules.values():
+                    for n in ast.walk(m2.tree):
+                        if isinstance(n, ast.alias) and n.name == newn:
+                            n.name = old
+                done = True
+                if log is not None:
+                    log.append(f'{mname}:{newn} taken for the renamed module variable `{old}` of the reference layout')
+    return done
 
 
 LOOPS = (ast.For, ast.While, ast.AsyncFor)
@@ -373,13 +507,39 @@ def _fold_param_tests(fn, states):
                 and isinstance(t.comparators[0], ast.Constant) and t.comparators[0].value is None and isinstance(t.ops[0], (ast.Is, ast.IsNot)):
             isnone = states[t.left.id] == 'none'
             return isnone if isinstance(t.ops[0], ast.Is) else not isnone
-        if isinstance(t, ast.Name) and states.get(t.id) == 'none':
+        if isinstance(t, ast.Name) and states.get(t.id) in ('none', 'false'):
             return False
+        if isinstance(t, ast.Name) and states.get(t.id) == 'true':
+            return True
+        if isinstance(t, ast.BoolOp):
+            vs = [verdict(v) for v in t.values]
+            if isinstance(t.op, ast.And):
+                if any(v is False for v in vs):
+                    return False
+                if all(v is True for v in vs):
+                    return True
+            else:
+                if any(v is True for v in vs):
+                    return True
+                if all(v is False for v in vs):
+                    return False
         return None
+
+    def reduce_test(t):
+        """a and/or test with the decided operands removed (the undecided rest decides)"""
+        if isinstance(t, ast.BoolOp):
+            drop = True if isinstance(t.op, ast.And) else False
+            keep = [v for v in t.values if verdict(v) is not drop]
+            if len(keep) < len(t.values) and keep:
+                hit[0] = True
+                return keep[0] if len(keep) == 1 else ast.copy_location(ast.BoolOp(op=t.op, values=keep), t)
+        return t
 
     def fold(stmts):
         out = []
         for st in stmts:
+            if isinstance(st, (ast.If, ast.While)) and verdict(st.test) is None:
+                st.test = reduce_test(st.test)
             for field in ('body', 'orelse', 'finalbody'):
                 sub = getattr(st, field, None)
                 if isinstance(sub, list) and sub and isinstance(sub[0], ast.stmt) and not isinstance(st, DEFS):
@@ -668,6 +828,136 @@ class Inliner:
         h.new_params = new
         self.ext_helpers[(mname, cls_name, node.name)] = h
 
+    def _deforward(self):
+        """A function R of the reference layout whose whole body now is `return H(<its parameters, in order>)` / `yield from H(..)` with H a new module-level
+        function forwards to H; a direct call `H(x0, x1, ..)` elsewhere in the package is the call `x0.R(x1, ..)` (R a method / classmethod) or `R(x0, ..)` it
+        replaces - the anchored call is restored, and R's body gets H expanded as usual."""
+        changed = False
+        fwd = {}
+        for mname, m in self.modules.items():
+            funcs = {st.name: st for st in m.tree.body if isinstance(st, ast.FunctionDef)}
+            scopes = [(None, [st for st in m.tree.body if isinstance(st, ast.FunctionDef)])]
+            scopes += [(c.name, [s2 for s2 in c.body if isinstance(s2, ast.FunctionDef)]) for c in m.tree.body if isinstance(c, ast.ClassDef)]
+            for cname, defs in scopes:
+                for d in defs:
+                    fq = f'{mname}:{cname}.{d.name}' if cname else f'{mname}:{d.name}'
+                    if fq not in self.pinned:
+                        continue
+                    body = [b for b in d.body if not (isinstance(b, ast.Expr) and isinstance(b.value, ast.Constant) and isinstance(b.value.value, str))]
+                    if len(body) != 1:
+                        continue
+                    st = body[0]
+                    call = None
+                    if isinstance(st, ast.Return) and isinstance(st.value, ast.Call):
+                        call = st.value
+                    elif isinstance(st, ast.Expr) and isinstance(st.value, ast.YieldFrom) and isinstance(st.value.value, ast.Call):
+                        call = st.value.value
+                    if call is None or not isinstance(call.func, ast.Name) or call.func.id not in funcs or f'{mname}:{call.func.id}' in self.pinned:
+                        continue
+                    params = [a.arg for a in d.args.args + d.args.kwonlyargs]
+                    args = [a.id if isinstance(a, ast.Name) else None for a in call.args] + [k.value.id if isinstance(k.value, ast.Name) and k.arg else None for k in call.keywords]
+                    if args != params or d.args.vararg or d.args.kwarg:
+                        continue
+                    is_method = cname is not None and not any(isinstance(x, ast.Name) and x.id == 'staticmethod' for x in d.decorator_list)
+                    fwd[(mname, call.func.id)] = (cname, d.name, is_method, d)
+        if not fwd:
+            return False
+        for m in self.modules.values():
+            imported = {}
+            for st in m.tree.body:
+                if isinstance(st, ast.ImportFrom):
+                    for a in st.names:
+                        imported[a.asname or a.name] = a.name
+            for fn in [n for n in ast.walk(m.tree) if isinstance(n, ast.FunctionDef)]:
+                for call in [n for n in ast.walk(fn) if isinstance(n, ast.Call) and isinstance(n.func, ast.Name)]:
+                    hname = imported.get(call.func.id, call.func.id)
+                    hits = [(k, v) for k, v in fwd.items() if k[1] == hname]
+                    if len(hits) != 1:
+                        continue
+                    (hm, _), (cname, rname, is_method, rdef) = hits[0]
+                    if fn is rdef or call.keywords or any(isinstance(a, ast.Starred) for a in call.args):
+                        continue
+                    if is_method:
+                        if not call.args or not _simple_arg(call.args[0]):
+                            continue
+                        new = ast.Call(func=ast.Attribute(value=call.args[0], attr=rname, ctx=ast.Load()), args=call.args[1:], keywords=[])
+                    elif cname is None and hm == m.name if hasattr(m, 'name') else False:
+                        new = ast.Call(func=ast.Name(id=rname, ctx=ast.Load()), args=call.args, keywords=[])
+                    else:
+                        continue
+                    ast.fix_missing_locations(ast.copy_location(new, call))
+                    if _replace_node(fn, call, new):
+                        changed = True
+                        self.log.append(f'{getattr(m, "name", "?")}:{fn.name}: call of `{hname}` read as the call of `{rname}` that forwards to it')
+        return changed
+
+    def _residualise_extended_calls(self):
+        """`f(x, flag=True)` where the reference function f gained the optional parameter `flag` and, with the flag decided, is `if C: return E` followed by exactly
+        what f does with the flag at its default: the call is `E if C else f(x)` - the reference behaviour stays a call of f"""
+        changed = False
+        for (mname, cls_name, name), h in self.ext_helpers.items():
+            dstates = {}
+            for p in h.new_params:
+                d = h.defaults.get(p)
+                if isinstance(d, ast.Constant) and p not in h.stored:
+                    dstates[p] = 'none' if d.value is None else ('true' if d.value is True else ('false' if d.value is False else 'notnone'))
+            if set(dstates) != set(h.new_params):
+                continue
+            dflt = _fold_param_tests(h.node, dstates) or h.node
+
+            def body_of(fn):
+                b = list(fn.body)
+                if b and isinstance(b[0], ast.Expr) and isinstance(b[0].value, ast.Constant) and isinstance(b[0].value.value, str):
+                    b = b[1:]
+                return b
+            bd = [ast.dump(x) for x in body_of(dflt)]
+            for m in self.modules.values():
+                for call in [n for n in ast.walk(m.tree) if isinstance(n, ast.Call)]:
+                    f = call.func
+                    if not ((isinstance(f, ast.Name) and f.id == name and cls_name is None) or
+                            (isinstance(f, ast.Attribute) and f.attr == name and cls_name is not None and isinstance(f.value, ast.Name) and f.value.id in ('self', 'cls'))):
+                        continue
+                    kws = {k.arg: k.value for k in call.keywords if k.arg}
+                    passed = [p for p in h.new_params if p in kws]
+                    if not passed or not all(isinstance(kws[p], ast.Constant) for p in passed) or any(isinstance(a, ast.Starred) for a in call.args):
+                        continue
+                    if not all(_simple_arg(a) for a in call.args) or not all(_simple_arg(v) for k, v in kws.items() if k not in passed):
+                        continue
+                    states = dict(dstates)
+                    for p in passed:
+                        v = kws[p].value
+                        states[p] = 'none' if v is None else ('true' if v is True else ('false' if v is False else 'notnone'))
+                    fn2 = _fold_param_tests(h.node, states)
+                    if fn2 is None:
+                        continue
+                    b2 = body_of(fn2)
+                    k = len(b2) - len(bd)
+                    if k < 1 or [ast.dump(x) for x in b2[k:]] != bd:
+                        continue
+                    guards = b2[:k]
+                    if not all(isinstance(g_, ast.If) and not g_.orelse and len(g_.body) == 1 and isinstance(g_.body[0], ast.Return) and g_.body[0].value is not None
+                               for g_ in guards):
+                        continue
+                    pos = [a.arg for a in h.node.args.args]
+                    if h.kind in ('method', 'classmethod'):
+                        pos = pos[1:]
+                    bind = dict(zip(pos, call.args))
+                    bind.update({k_: v_ for k_, v_ in kws.items() if k_ not in passed})
+                    free = {n.id for g_ in guards for n in ast.walk(g_) if isinstance(n, ast.Name)}
+                    if not (free & set(h.params)) <= set(bind):
+                        continue
+                    sub = _Subst({}, bind)
+                    resid = copy.deepcopy(call)
+                    resid.keywords = [k_ for k_ in resid.keywords if k_.arg not in passed]
+                    expr = resid
+                    for g_ in reversed(guards):
+                        expr = ast.IfExp(test=sub.visit(copy.deepcopy(g_.test)), body=sub.visit(copy.deepcopy(g_.body[0].value)), orelse=expr)
+                    ast.fix_missing_locations(ast.copy_location(expr, call))
+                    if _replace_node(m.tree, call, expr):
+                        changed = True
+                        self.log.append(f'{mname}:{name}(.., {", ".join(passed)}=..): the call is `<early result> if <test> else {name}(..)`, the reference behaviour stays a call')
+        return changed
+
     def _specialise_extended(self):
         """the reference functions that gained optional parameters, read with those parameters at their (constant) defaults - unless a
         remaining reference passes one of them"""
@@ -685,7 +975,21 @@ class Inliner:
             for p in h.new_params:
                 d = h.defaults.get(p)
                 if isinstance(d, ast.Constant) and p not in h.stored:
-                    states[p] = 'none' if d.value is None else 'notnone'
+                    states[p] = 'none' if d.value is None else ('true' if d.value is True else ('false' if d.value is False else 'notnone'))
+                elif isinstance(d, ast.Constant) and d.value is None:
+                    # `if p is None: p = E` among the leading statements, the only store of p: with the default in force that is `p = E`
+                    stores_ = [n for n in ast.walk(h.node) if isinstance(n, ast.Name) and n.id == p and isinstance(n.ctx, ast.Store)]
+                    for i_, st_ in enumerate(h.node.body):
+                        if isinstance(st_, ast.If) and not st_.orelse and len(st_.body) == 1 and isinstance(st_.body[0], ast.Assign) \
+                                and len(st_.body[0].targets) == 1 and isinstance(st_.body[0].targets[0], ast.Name) and st_.body[0].targets[0].id == p \
+                                and len(stores_) == 1 and isinstance(st_.test, ast.Compare) and isinstance(st_.test.left, ast.Name) and st_.test.left.id == p \
+                                and len(st_.test.ops) == 1 and isinstance(st_.test.ops[0], ast.Is) and isinstance(st_.test.comparators[0], ast.Constant) \
+                                and st_.test.comparators[0].value is None \
+                                and not any(isinstance(n, ast.Name) and n.id == p for b_ in h.node.body[:i_] for n in ast.walk(b_)):
+                            h.node.body[i_] = st_.body[0]
+                            self.log.append(f'{mname}:{h.qual}: `if {p} is None: {p} = ..` read with the default in force')
+                            changed = True
+                            break
             fn2 = _fold_param_tests(h.node, states) if states else None
             if fn2 is not None:
                 h.node.body = fn2.body
@@ -722,6 +1026,10 @@ class Inliner:
             if isinstance(a, ast.Constant):
                 if a.value is None:
                     states[p] = 'none'
+                elif a.value is True:
+                    states[p] = 'true'
+                elif a.value is False:
+                    states[p] = 'false'
                 else:
                     states[p] = 'notnone'
             elif isinstance(a, ast.Name) and self._cur_fn is not None:
@@ -1582,6 +1890,8 @@ class Inliner:
 
     def run(self):
         nt_changed = self._namedtuple_calls_to_tuples()
+        if self._deforward():
+            nt_changed = True
         if self._unroll_table_loops():
             nt_changed = True
         if self._lower_dict_dispatch():
@@ -1594,7 +1904,7 @@ class Inliner:
                     ast.fix_missing_locations(m.tree)
             return nt_changed
         self._unalias_helper_values()
-        any_change = False
+        any_change = self._residualise_extended_calls() if self.ext_helpers else False
         for _round in range(3):
             changed = False
             for mname, m in self.modules.items():
